@@ -87,6 +87,19 @@ CLAIMED = {
             "and its copy with one interval cut at a symbolic interior instant scored by the real chord.evaluate (15 entries), six segment metrics and "
             "hierarchy.lmeasure; z3 shows equal results on every path.",
             "Bounds: n<=3/4 weights; <=2+2 chord intervals over a 7-label pool; <=2+2 (3+2) segments at frame 0.5, span<=2 s; hierarchy 2 levels.", "5 (C12)"),
+    "C19": ("PARTIAL SCOPE - orchestration only: with the numerical core stubbed by arbitrary symbolic values, z3 shows the four BSS components sum to the "
+            "padded estimate for every projection, the returned perm is a permutation maximising mean SIR (identity without compute_permutation) with outputs "
+            "equal to the selected criteria and independent of np.empty contents, and the framewise variants hand the right slices to the per-window "
+            "function, copy its results, put NaN in every metric of silent windows and return the documented arity for empty input.",
+            "NOT covered (not applicable to SMT encoding, see DESIGN 6): scale invariance of SDR/SIR/SAR, perfect estimate => identity permutation with very high "
+            "SDR, framewise == non-framewise values - these depend on 512-tap FFT/Toeplitz float64 numerics. Bounds: nsrc<=3, flen=2, nsampl<=3; framewise 2 sources, "
+            "<=8 samples. Two genuine defects fixed.", "5 (C19), 6"),
+    "C20": ("PARTIAL SCOPE - tokenisation and post-parse contract: the real load_delimited on a line assembled from symbolic string pieces (fields, whitespace / "
+            "custom delimiters, label with interior whitespace, comment marker) through a symbolic model of its `re` calls: z3 shows the columns are exactly the "
+            "written fields, comment lines vanish, wrong column counts / unparsable numbers raise ValueError, file order is kept; loaders on arbitrary parsed "
+            "columns return values in file order, only warn on convention violations, and reject tempo weight outside [0,1] and multi-line key/tempo files.",
+            "NOT covered (see DESIGN 6): bit-identical float round trip (float() is an injective uninterpreted token), path vs. file object, row numbers in messages, "
+            "labels outside code points 9..126, load_patterns / load_ragged_time_series. Bounds: pieces <=2/3 chars, label <=3/5, 1-2 lines, <=2/3 parsed rows.", "5 (C20), 6"),
 }
 
 NA_REASON = "check not built yet in this revision (planned; see DESIGN.md section 5)"
